@@ -6,6 +6,7 @@ import Rsactor.Inv.Cap
 import Rsactor.Ties.send_paths_shape
 import Rsactor.Inv.Progress
 import Rsactor.Inv.OkAcc
+import Rsactor.Inv.SendErr
 
 namespace Rsactor.Props.C09
 open Rsactor Rsactor.Model Rsactor.Extracted
@@ -107,6 +108,15 @@ theorem ok_tell_was_accepted (cap : Nat) (sc : Script) (ls : List Label) (s : Sy
 example : ∃ s, run? (init 1 {}) [.gate, .startDone, .issue 0 { kind := .tell }, .push 0] = some s ∧
     Ev.ret 0 .ok 0 ∈ s.ev ∧ Ev.accepted 0 0 ∈ s.ev := by
   refine ⟨_, rfl, ?_, ?_⟩ <;> decide
+
+/-- `send_error_only_after_end`: "a send waits, it is never refused": in every reachable state, an operation that was
+    answered with Err(Send) was answered after the actor's task had finished (`joined` is in the history). A running
+    actor - full mailbox or not, stop pending or not - never turns a sender away; it makes it wait.
+    (The trace monitor `C09.failOnlyWhenClosed` checks the same, with the order of the events, on every real trace.) -/
+theorem send_error_only_after_end (cap : Nat) (sc : Script) (ls : List Label) (s : Sys)
+    (hr : run? (init cap sc) ls = some s) (oid a : Nat) (hret : Ev.ret oid .send a ∈ s.ev) :
+    ∃ o, Ev.joined o ∈ s.ev :=
+  (send_run cap sc ls s hr).2 oid a hret
 
 /-- the control channel holds exactly one signal -/
 theorem term_channel_capacity : term_chan_cap = 1 := rfl
